@@ -11,6 +11,16 @@ package main
 //   deep_copy_disjoint/<Type>        no address reachable from the copy is reachable from the original
 //   parallel_equals_sequential/<Type> (thorough) 2…16 goroutines, each its own shallow copy, shared keys
 //   shared_cache_race/<Type>         the lazily written shared cache under concurrency (child process)
+//   copy_config_equal/<Type.Ctor>    an unused shallow copy has the content of the unused original everywhere
+//                                    (nested objects included), PRNG states excepted (c10ConfigDiff, c10_mp.go)
+//
+// Other layers, each in its own file (called from genC10):
+//   c10_deep.go   CopyNew of ring.Poly, ringqp.Poly, rlwe.VectorQP / GadgetCiphertext / MetaData, structs.*
+//   c10_ring.go   ring.BasisExtender (all five operations, every level pair), ring.Decomposer (shared, read-only),
+//                 samplers AtLevel / WithPRNG with keyed PRNGs, ringqp.Ring / ringqp.UniformSampler
+//   c10_rlwe.go   rlwe.RingPackingEvaluator.ShallowCopy, blindrot.Evaluator (no copy constructor: second instance)
+//   c10_mp.go     every multiparty protocol: two-party run, party A on the original, party B on the copy
+//   c10_btp.go    dft / mod1 evaluators over a shallow copy, bootstrapping.Evaluator.ShallowCopy (wiring, bootstrap)
 
 import (
 	"fmt"
@@ -545,6 +555,12 @@ func genC10(c *Ctx) {
 			if cs.same != nil {
 				c.Probe("copy_behaves_same/"+cs.name, "-", "C10-behaves-"+cs.name, cs.same(o, x))
 			}
+			if strings.Contains(cs.name, ".ShallowCopy") && !cs.deep {
+				// same configuration: everything reachable from an unused copy has the content of the unused
+				// original, PRNG states excepted
+				oc, xc := cs.mk()
+				c10ConfigProbe(c, cs.name, oc, xc)
+			}
 			// independence
 			o2, x2 := cs.mk()
 			h := deepHash(o2)
@@ -599,6 +615,13 @@ func genC10(c *Ctx) {
 	}
 
 	c10CopyInto(c)
+
+	// ---- constructors of the other layers (own files) ----
+	c10Deep(c)
+	c10Ring(c)
+	c10RLWE(c)
+	c10Multiparty(c)
+	c10Circuits(c)
 
 	// ---- named candidates ----
 	// (1) Encryptor.ShallowCopy after WithPRNG: is the installed source of c1 kept?
